@@ -469,7 +469,7 @@ class FnExecutor(Executor):
         it_sv = itv if isinstance(itv.t, TList) else None
         # init
         C = Ctx(self, st, self.entry, self.params, k=z3.IntVal(0), it=it_sv)
-        g = inv(C)
+        g = self.spec(inv, C, 'invariant of loop #%d' % ordinal)
         self.oblige('loop%d.init' % ordinal, st, g, node=s, extra_hyps=C.side)
         # arbitrary iteration
         sh = st.copy()
@@ -479,7 +479,7 @@ class FnExecutor(Executor):
         k = fresh('k%d' % ordinal, z3.IntSort())
         sh_base = sh.copy()
         Ch = Ctx(self, sh, self.entry, self.params, k=k, it=it_sv)
-        invh = inv(Ch)
+        invh = self.spec(inv, Ch, 'invariant of loop #%d' % ordinal)
         sh.assume(*Ch.side)
         sh.assume(invh)
         # body
@@ -496,7 +496,7 @@ class FnExecutor(Executor):
             for o in body_outs:
                 if o.kind in ('fall', 'continue'):
                     C2 = Ctx(self, o.st, self.entry, self.params, k=k + 1, it=it_sv)
-                    g2 = inv(C2)
+                    g2 = self.spec(inv, C2, 'invariant of loop #%d' % ordinal)
                     self.oblige('loop%d.preserve' % ordinal, o.st, g2, node=s, extra_hyps=C2.side)
                 elif o.kind == 'break':
                     outs.append(Out('fall', o.st))
@@ -506,7 +506,7 @@ class FnExecutor(Executor):
         # exit: the invariant with k := n (syntactically, so that triggers match)
         se = sh_base.note('L%s: loop#%d exit' % (s.lineno, ordinal))
         Ce = Ctx(self, se, self.entry, self.params, k=n, it=it_sv)
-        inve = inv(Ce)
+        inve = self.spec(inv, Ce, 'invariant of loop #%d' % ordinal)
         se.assume(*Ce.side)
         se.assume(inve)
         outs.append(Out('fall', se))
@@ -520,11 +520,11 @@ class FnExecutor(Executor):
         if inv is None:
             raise Unbound('loop #%d (line %s) has no invariant in the contract' % (ordinal, s.lineno))
         C = Ctx(self, st, self.entry, self.params)
-        self.oblige('loop%d.init' % ordinal, st, inv(C), node=s, extra_hyps=C.side)
+        self.oblige('loop%d.init' % ordinal, st, self.spec(inv, C, 'invariant of loop #%d' % ordinal), node=s, extra_hyps=C.side)
         sh = st.copy()
         self.havoc_loop(s.body, sh)
         Ch = Ctx(self, sh, self.entry, self.params)
-        invh = inv(Ch)
+        invh = self.spec(inv, Ch, 'invariant of loop #%d' % ordinal)
         sh.assume(*Ch.side)
         sh.assume(invh)
         outs = []
@@ -537,7 +537,7 @@ class FnExecutor(Executor):
             for o in self.block(s.body, sb):
                 if o.kind in ('fall', 'continue'):
                     C2 = Ctx(self, o.st, self.entry, self.params)
-                    self.oblige('loop%d.preserve' % ordinal, o.st, inv(C2), node=s, extra_hyps=C2.side)
+                    self.oblige('loop%d.preserve' % ordinal, o.st, self.spec(inv, C2, 'invariant of loop #%d' % ordinal), node=s, extra_hyps=C2.side)
                 elif o.kind == 'break':
                     outs.append(Out('fall', o.st))
                 else:
@@ -597,7 +597,7 @@ def verify_function(contract, fndef, prefix, ghost_decl=None, module_consts=None
     entry = st.copy()
     ex.entry = entry
     C = Ctx(ex, st, st, params)
-    pre = contract.requires(C)
+    pre = ex.spec(contract.requires, C, 'precondition')
     st.assume(*C.side)
     st.assume(pre)
     ex.entry = st.copy()
@@ -615,7 +615,7 @@ def verify_function(contract, fndef, prefix, ghost_decl=None, module_consts=None
                 else:
                     raise
             C2 = Ctx(ex, o.st, ex.entry, params, result=res)
-            post = contract.ensures(C2)
+            post = ex.spec(contract.ensures, C2, 'postcondition')
             ex.oblige('post', o.st, post, node=o.node or fndef, extra_hyps=C2.side)
             # frame: heap arrays not listed in modifies must be unchanged
             allowed = set()
